@@ -89,7 +89,8 @@ def rule_p1(ctx, pl: Pipeline, rule_id: str = "C05-P1", only_duplicates: bool = 
                     switch_false = False
                     for c, p in g:
                         v = ctx.ev.eval(c, env)
-                        if p and v == frozenset({Val("const", False)}):
+                        # the constant False, or an option of the Balancer whose default is False (asked for explicitly)
+                        if p and v and all((x.kind == "const" and x.value is False) or (x.kind == "sym" and getattr(x, "default", None) is False) for x in v):
                             switch_false = True
                     ctx.instance(rule_id, "%s: drop_duplicates under %s (switch bound to False at the call site: %s)" % (f.name, [unparse(c) for c, p in g], switch_false), f.loc(n), ok=switch_false)
                     if not switch_false:
